@@ -41,17 +41,7 @@ fn first_line(content: &[u8]) -> (&[u8], &[u8]) {
     }
 }
 
-/// What may follow a frame's text on the wire: the documented CR LF, and everything near it.
-fn line_endings() -> Vec<Vec<u8>> {
-    let mut v: Vec<Vec<u8>> = vec![b"\r\n".to_vec(), b"\n".to_vec(), b"\r".to_vec(), b"\r\r\n".to_vec(), b"\n\n".to_vec(), b"\n\r\n".to_vec(), b"\r\n\n".to_vec()];
-    for stray in [b'0', b'F', b'X', b' ', b':', 0u8, 0xFF, b'\t', b'\r'] {
-        v.push(vec![stray, b'\n']);
-        v.push(vec![stray, b'\r', b'\n']);
-        v.push(vec![b'\r', stray, b'\n']);
-        v.push(vec![stray, stray, b'\n']);
-    }
-    v
-}
+use crate::gen::line_endings;
 
 fn rd_case(ctx: &mut Ctx, k: usize, content: &[u8], sched: &[String], class: &str) {
     let line = format!("RD {} {} {}", k, hex_of_bytes(content), sched.join(" "));
